@@ -10,6 +10,8 @@
 //!   PROG\t<KProg term>\t<source>      the resolved AST + typing environment + type_check's verdict
 //!   CTY\t<KCty term>\t<source>        Expr::compute_ty of an expression of an accepted program
 //!   DYN\t<KDyn term>\t<source>        AstVm::eval(e).ty() of an expression of an accepted program
+//!   CV\t<KCv term>\t<source>          type of the value evaluate_const_vars caches for a const of an accepted program
+//!   FOLD\t<KFold term>\t<source>      type of the literal const_simplify folds an accepted expression to
 //!   ORACLE-FAIL\t<what>\t<detail>\t<source>   impl-level oracle (later pass panics after type_check accepted)
 //!   STATS\t...
 //!
@@ -363,13 +365,35 @@ impl<'a> Gen<'a> {
         format!("{}{}\n", pad, body)
     }
 
-    /// expressions that const evaluation accepts (no registers, calls, labels)
+    /// literals for const definitions (`true`/`false` are builtin const *variables*: kept out)
+    fn clit(&mut self, ty: Ty, r: &mut Rng) -> String {
+        self.bump("lit");
+        let ty = if self.flip("literal") { other(ty, r) } else { ty };
+        match ty { Ty::I => format!("{}", r.below(2000)), Ty::F => self.float_lit(r), Ty::S => self.str_lit(r) }
+    }
+
+    /// expressions that const evaluation accepts (no registers, calls, labels); other consts are read plainly,
+    /// through their own sigil, or (numeric ones) through the other sigil, which casts
     fn const_expr(&mut self, ty: Ty, depth: u32, cscope: &Scope, r: &mut Rng) -> String {
         let ty = if self.flip("operand") { other(ty, r) } else { ty };
-        let cands: Vec<String> = cscope.iter().filter(|x| x.1 == ty).map(|x| x.0.clone()).collect();
         if depth == 0 || r.chance(1, 3) || ty == Ty::S {
-            if !cands.is_empty() && r.chance(1, 2) { self.bump("const_ref"); return r.pick(&cands).clone(); }
-            return self.lit(ty, r);
+            let same: Vec<String> = cscope.iter().filter(|x| x.1 == ty).map(|x| x.0.clone()).collect();
+            let oth: Vec<String> = cscope.iter().filter(|x| x.1 != ty && x.1 != Ty::S && ty != Ty::S).map(|x| x.0.clone()).collect();
+            let c = r.below(6);
+            let (sg, osg) = if ty == Ty::I { ("$", "%") } else { ("%", "$") };
+            if c < 2 && !same.is_empty() {
+                self.bump("const_ref");
+                let v = r.pick(&same).clone();
+                let flip = self.flip("sigil");
+                if ty == Ty::S { return if flip { format!("${}", v) } else { v }; }
+                return match (r.chance(1, 3), flip) { (false, false) => v, (true, false) => format!("{}{}", sg, v), (_, true) => format!("{}{}", osg, v) };
+            }
+            if c < 4 && !oth.is_empty() {
+                self.bump("const_ref_cast_sigil");
+                let v = r.pick(&oth).clone();
+                return if self.flip("sigil") { v } else { format!("{}{}", sg, v) };
+            }
+            return self.clit(ty, r);
         }
         let (mut r1, mut r2) = (r.fork(), r.fork());
         match ty {
@@ -381,17 +405,25 @@ impl<'a> Gen<'a> {
     fn program(&mut self, r: &mut Rng) -> String {
         let mut s = String::from(ENTRY);
         let mut gscope: Scope = vec![];
-        // top-level consts
-        for _ in 0..r.below(3) {
+        // top-level consts: a const may mention every const of lower rank, wherever that one is declared
+        // (before or after it in the file), plainly or through either sigil
+        let nconst = r.below(5) as usize;
+        let ctys: Vec<Ty> = (0..nconst).map(|_| *r.pick(&[Ty::I, Ty::F, Ty::I, Ty::F, Ty::S])).collect();
+        let mut rank: Vec<usize> = (0..nconst).collect();
+        for k in 0..nconst { let j = k + r.below((nconst - k) as u64) as usize; rank.swap(k, j); }
+        let names: Vec<String> = (0..nconst).map(|k| format!("K{}", k)).collect();
+        for k in 0..nconst {
             let mut rr = r.fork();
             self.bump("i_const");
-            let ty = *rr.pick(&[Ty::I, Ty::F, Ty::S]);
+            let ty = ctys[k];
             let dty = if self.flip("decltype") { other(ty, &mut rr) } else { ty };
-            let name = format!("K{}", self.nvar); self.nvar += 1;
-            let e = self.const_expr(ty, 2, &gscope.clone(), &mut rr);
-            let _ = writeln!(s, "const {} {} = {};", kw(dty), name, e);
-            gscope.push((name, dty, true));
+            let cscope: Scope = (0..nconst).filter(|&j| rank[j] < rank[k]).map(|j| (names[j].clone(), ctys[j], true)).collect();
+            if cscope.iter().any(|x| names.iter().position(|n| *n == x.0).unwrap() > k) { self.bump("i_const_forward_ref_possible"); }
+            let e = self.const_expr(ty, 2, &cscope, &mut rr);
+            let _ = writeln!(s, "const {} {} = {};", kw(dty), names[k], e);
+            gscope.push((names[k].clone(), dty, true));
         }
+        self.nvar += nconst;
         // functions (type_check does not care that ANM cannot lower them)
         let nfun = if r.chance(1, 3) { 1 + r.below(2) } else { 0 };
         for k in 0..nfun {
@@ -485,7 +517,7 @@ impl Env {
     }
 }
 
-struct Conv<'a, 'ctx> { ctx: &'a CompilerContext<'ctx>, env: Env, exprs: Vec<&'a ast::Expr> }
+struct Conv<'a, 'ctx> { ctx: &'a CompilerContext<'ctx>, env: Env, exprs: Vec<&'a ast::Expr>, consts: Vec<(u32, String)> }
 
 impl<'a, 'ctx> Conv<'a, 'ctx> {
     fn var(&mut self, v: &ast::Var) -> String {
@@ -559,7 +591,10 @@ impl<'a, 'ctx> Conv<'a, 'ctx> {
             ast::Item::Script { code, .. } => format!("(SScript {})", self.block(code)),
             ast::Item::Meta { fields, .. } => { let mut es = vec![]; self.meta_fields(fields, &mut es); format!("(SMeta [{}])", es.join("; ")) },
             ast::Item::ConstVar { ty_keyword, vars } => format!("(SConst {} [{}])", kwname(ty_keyword.value),
-                vars.iter().map(|v| { let a = self.var(&v.value.0.value); let b = self.top_expr(&v.value.1.value); format!("({}, {})", a, b) }).collect::<Vec<_>>().join("; ")),
+                vars.iter().map(|v| {
+                    let a = self.var(&v.value.0.value); let b = self.top_expr(&v.value.1.value);
+                    if let ast::VarName::Normal { ident, .. } = &v.value.0.value.name { self.consts.push((self.ctx.resolutions.expect_def(ident).0.get(), b.clone())); }
+                    format!("({}, {})", a, b) }).collect::<Vec<_>>().join("; ")),
         }
     }
     fn meta_fields(&mut self, fields: &'a truth::Sp<ast::meta::Fields>, out: &mut Vec<String>) { for (_k, v) in fields.value.iter() { self.meta(v, out); } }
@@ -626,7 +661,7 @@ fn coq_value(v: &ScalarValue) -> String {
     }
 }
 
-struct RunStats { early: u64, accepted: u64, rejected: u64, panicked: u64, cty: u64, dyn_: u64 }
+struct RunStats { early: u64, accepted: u64, rejected: u64, panicked: u64, cty: u64, dyn_: u64, cv: u64, fold: u64, const_diag: u64 }
 
 fn oneline(t: &str) -> String { t.replace('\n', "\\n").replace('\t', " ") }
 
@@ -646,7 +681,7 @@ fn run_program(text: &str, tag: &str, r: &mut Rng, st: &mut RunStats, expr_cases
     let tc = catch(|| passes::type_check::run(&file, truth.ctx()).is_ok());
     let res = match &tc { Ok(true) => { st.accepted += 1; "(IOk tt)" }, Ok(false) => { st.rejected += 1; "IErr" }, Err(_) => { st.panicked += 1; "IPanic" } };
     let ctx: &CompilerContext = truth.ctx();
-    let mut conv = Conv { ctx, env: Env::default(), exprs: vec![] };
+    let mut conv = Conv { ctx, env: Env::default(), exprs: vec![], consts: vec![] };
     let items: Vec<String> = file.items.iter().map(|it| conv.item(&it.value)).collect();
     let envt = conv.env.term();
     println!("PROG\tKProg {} [{}] {}\t{}\t{}", envt, items.join("; "), res, oneline(text), tag);
@@ -659,7 +694,7 @@ fn run_program(text: &str, tag: &str, r: &mut Rng, st: &mut RunStats, expr_cases
             if matches!(e, ast::Expr::LitInt { .. } | ast::Expr::LitFloat { .. } | ast::Expr::LitString(_)) { continue; }
             if n >= 6 { break; }
             n += 1;
-            let mut c2 = Conv { ctx, env: Env::default(), exprs: vec![] };
+            let mut c2 = Conv { ctx, env: Env::default(), exprs: vec![], consts: vec![] };
             let et = c2.expr(e);
             let envt = c2.env.term();
             let cty = catch(|| e.compute_ty(ctx).as_value_ty());
@@ -693,6 +728,51 @@ fn run_program(text: &str, tag: &str, r: &mut Rng, st: &mut RunStats, expr_cases
             }
         }
     }
+    if tc == Ok(true) {
+        // the const evaluator and the const-simplification pass of the real pipeline on the accepted program:
+        // every const evaluates to a value of its declared type, every expression folds to a literal of the type
+        // the checker assigned
+        let is_lit = |e: &ast::Expr| matches!(e, ast::Expr::LitInt { .. } | ast::Expr::LitFloat { .. } | ast::Expr::LitString(_));
+        let pre: Vec<(String, String, bool)> = conv.exprs.iter().map(|e| {
+            let mut c2 = Conv { ctx, env: Env::default(), exprs: vec![], consts: vec![] };
+            let t = c2.expr(e);
+            (c2.env.term(), t, is_lit(e))
+        }).collect();
+        let consts = conv.consts.clone();
+        let mut file2 = file.clone();
+        let piped = catch(|| -> Result<(), truth::ErrorReported> {
+            let ctx = truth.ctx();
+            passes::evaluate_const_vars::run(ctx).map(|_| ())?;
+            passes::const_simplify::run(&mut file2, ctx)?;
+            Ok(())
+        });
+        match piped {
+            Err(p) => println!("ORACLE-FAIL\taccepted by type_check, then a later pass panics\tconst evaluation/simplification: {}\t{}\t{}", oneline(&p), oneline(text), tag),
+            Ok(Err(_)) => { st.const_diag += 1; },
+            Ok(Ok(())) => {
+                let ctx: &CompilerContext = truth.ctx();
+                let defs = format!("[{}]", consts.iter().map(|(id, t)| format!("({}%nat, {})", id, t)).collect::<Vec<_>>().join("; "));
+                for (id, _) in consts.iter().take(8) {
+                    let def_id = truth::DefId(std::num::NonZeroU32::new(*id).unwrap());
+                    if let Some(v) = ctx.consts.get_cached_value(def_id.into()) {
+                        println!("CV\tKCv {} {} {}%nat (IOk {})\t{}\t{}", envt, defs, id, sty(v.ty()), oneline(text), tag);
+                        st.cv += 1;
+                    }
+                }
+                let mut conv2 = Conv { ctx, env: Env::default(), exprs: vec![], consts: vec![] };
+                for it in file2.items.iter() { let _ = conv2.item(&it.value); }
+                if conv2.exprs.len() == pre.len() {
+                    let mut n = 0;
+                    for (k, e2) in conv2.exprs.iter().enumerate() {
+                        if pre[k].2 || n >= 8 { continue; }
+                        let t = match e2 { ast::Expr::LitInt { .. } => "TInt", ast::Expr::LitFloat { .. } => "TFloat", ast::Expr::LitString(_) => "TString", _ => continue };
+                        println!("FOLD\tKFold {} {} (IOk {})\t{}\t{}", pre[k].0, pre[k].1, t, oneline(text), tag);
+                        st.fold += 1; n += 1;
+                    }
+                }
+            },
+        }
+    }
     Some(tc == Ok(true))
 }
 
@@ -720,7 +800,7 @@ fn gen_mode(n: usize, max_mut: usize, mut cli_budget: usize) {
     let mut rng = Rng::new(seed_from_env());
     let mut hist: BTreeMap<&'static str, u64> = BTreeMap::new();
     let mut mhist: BTreeMap<&'static str, (u64, u64, u64)> = BTreeMap::new();   // kind -> (mutants, rejected, accepted)
-    let mut st = RunStats { early: 0, accepted: 0, rejected: 0, panicked: 0, cty: 0, dyn_: 0 };
+    let mut st = RunStats { early: 0, accepted: 0, rejected: 0, panicked: 0, cty: 0, dyn_: 0, cv: 0, fold: 0, const_diag: 0 };
     let (mut base_ok, mut base_bad, mut points_total) = (0u64, 0u64, 0u64);
     let mut oracle_idx = 0usize;
     for i in 0..n {
@@ -754,8 +834,8 @@ fn gen_mode(n: usize, max_mut: usize, mut cli_budget: usize) {
             }
         }
     }
-    println!("STATS\tprograms={} base_accepted={} base_rejected={} mutation_points={} reached_type_check: accepted={} rejected={} panicked={} not_reached={} cty={} dyn={}\tgenerator={:?}\tmutants(kind:(n,rejected,accepted))={:?}",
-        n, base_ok, base_bad, points_total, st.accepted, st.rejected, st.panicked, st.early, st.cty, st.dyn_, hist, mhist);
+    println!("STATS\tprograms={} base_accepted={} base_rejected={} mutation_points={} reached_type_check: accepted={} rejected={} panicked={} not_reached={} cty={} dyn={} const_values={} folded={} const_eval_diagnostics={}\tgenerator={:?}\tmutants(kind:(n,rejected,accepted))={:?}",
+        n, base_ok, base_bad, points_total, st.accepted, st.rejected, st.panicked, st.early, st.cty, st.dyn_, st.cv, st.fold, st.const_diag, hist, mhist);
 }
 
 /// stack ECL: `EclSubName.x` is a string-typed enum const; only the Ok/Err/panic of the compile is observed
@@ -783,7 +863,7 @@ fn main() {
         Some("gen") => gen_mode(args.get(2).and_then(|s| s.parse().ok()).unwrap_or(50), args.get(3).and_then(|s| s.parse().ok()).unwrap_or(12), args.get(4).and_then(|s| s.parse().ok()).unwrap_or(0)),
         Some("text") => {
             let text = std::fs::read_to_string(&args[2]).expect("read");
-            let mut st = RunStats { early: 0, accepted: 0, rejected: 0, panicked: 0, cty: 0, dyn_: 0 };
+            let mut st = RunStats { early: 0, accepted: 0, rejected: 0, panicked: 0, cty: 0, dyn_: 0, cv: 0, fold: 0, const_diag: 0 };
             let mut r = Rng::new(seed_from_env());
             let tag = format!("file={}", args[2]);
             match run_program(&text, &tag, &mut r, &mut st, true) {
